@@ -1376,6 +1376,11 @@ def compile_pattern(compiler, pattern):
     elif isinstance(value, Symbol):
         return compiler.scope.assign(asty.MatchAs(value, name=mangle(value)))
     elif isinstance(value, Expression) and value[0] == Symbol("|"):
+        # Python requires at least two alternatives.
+        if not value[1]:
+            compiler._syntax_error(value, "an or-pattern needs at least one alternative")
+        if len(value[1]) == 1:
+            return compile_pattern(compiler, value[1][0])
         return asty.MatchOr(
             value,
             patterns=[compile_pattern(compiler, v) for v in value[1]],
